@@ -103,6 +103,11 @@ def run(ctx):
             return True
         return False
     V.selftest_corrupt(ctx, "Trace_DateTime", rep2["trace_files"][0]["path"], corrupt, "a recorded latest() day - 1")
+    # growth beyond C12 (thorough tier only, observation only): to_date/to_time/to_datetime(+multi) on text,
+    # range texts of every shape incl. mixed and west/east offsets, constructors on invalid components
+    if not q:
+        rep3 = vlib.run_driver("drv_datetime", ["grow", "--n", 6000, "--out", ctx.path("grow")], env=ctx.env())
+        V.observe(ctx, rep3["trace"], "date/time conversions from text, range texts, constructors")
     ctx.exhaustive = False
 
 
